@@ -218,6 +218,9 @@ def callNumOk : Call → Prop
   | .removeOption n => n ≤ 65535
   | _ => True
 
+instance (c : Call) : Decidable (callNumOk c) := by
+  cases c <;> unfold callNumOk <;> infer_instance
+
 theorem updateOption_conc (ms : Nat) (a : Msg) (n : Nat) (v : Bytes) (hs : Shape a) (hn : n ≤ 65535) :
     updateOption (conc ms a) n v = R.ok ((absUpdate ms a n v).1, conc ms (absUpdate ms a n v).2) := by
   unfold absUpdate
